@@ -2,6 +2,8 @@
 From Coq Require Import List Bool Arith ZArith NArith.
 Import ListNotations.
 From AM Require Import Lib.Assoc Model.Tracker Proofs.TrackerInv Proofs.TrackerMore.
+From AM Require Import Model.TrackerConc Proofs.TrackerConcLift.
+From AM Require Gen.TrackerLocks.
 
 (* At every prefix h of any history (no well-formedness needed) and for the next operation o:
    whatever o makes the correlator write is an event of a numeric session (never "" / "unset")
@@ -47,3 +49,25 @@ Example C04_example :
          Audit {| a_id := 3; a_ses := SUnset; a_type := TLogin; a_pid := Some 60%Z |} 7%Z;
          Audit {| a_id := 4; a_ses := SId 6; a_type := TCredDisp; a_pid := Some 60%Z |} 9%Z ] = [].
 Proof. vm_compute. reflexivity. Qed.
+
+(* ---------- the same statement for CONCURRENT deliveries ----------
+   The daemon delivers logins, audit events and cleanup from different goroutines.  GENERATED from
+   sessiontracker.go: every exported method of the correlator is one critical section of one mutex
+   (C04_calls_atomic).  Under that mutex every complete execution of every thread system under every
+   schedule writes what the sequential correlator writes on the linearization [lin] (calls in the
+   order they began, each thread's program order kept; Proofs/TrackerConcLemmas.v), so the theorem
+   above holds of every concurrent execution. *)
+Theorem C04_calls_atomic : Gen.TrackerLocks.tracker_calls_locked = true.
+Proof. vm_compute. reflexivity. Qed.
+Print Assumptions C04_calls_atomic.
+
+Theorem C04_silence_concurrent : forall progs sched (l : login) (e : aev),
+  all_done (exec true progs sched) = true ->
+  In (l, e) (s_out (exec true progs sched)) ->
+  let h := lin progs sched in
+  exists s ev0 now0,
+    a_ses e = SId s /\ in_hist e h /\
+    In (Audit ev0 now0) h /\ a_ses ev0 = SId s /\ a_type ev0 = TLogin /\ a_pid ev0 = Some (l_pid l) /\
+    In_login l h.
+Proof. exact identity_concurrent. Qed.
+Print Assumptions C04_silence_concurrent.
